@@ -86,6 +86,7 @@ def run(ctx, model_ok=True):
     check(ctx, [1, 2, 3], [2, 0], "list", "int64")
     check(ctx, [3, 2], 1, "scalar", "float64")
     check(ctx, [3, 3], None, "omitted", "float64")
+    check(ctx, [1, 3, 1, 1, 1, 1, 1, 1, 2], [0, 2, 3, 4, 5, 6, 7], "list", "int64")  # kept {1, 8}: set iteration order
     for it in range(700 if quick else 4000):
         n = int(rng.choice([1, 2, 2, 3, 3, 4, 5]))
         dims = gen.rand_dims(rng, n, 1, 4, 36 if quick else 64)
@@ -95,6 +96,15 @@ def run(ctx, model_ok=True):
         sys_arg = S[0] if len(S) == 1 and rng.integers(2) else S
         dtype = str(rng.choice(["int64", "float64", "complex128", "object"]))
         check(ctx, dims, sys_arg, str(rng.choice(["list", "array"])), dtype)
+    # many subsystems (most of dimension 1): the kept subsystems must stay in their original order for any n
+    for it in range(120 if quick else 600):
+        n = int(rng.integers(6, 13))
+        dims = [1] * n
+        big = [int(x) for x in rng.choice(n, size=int(rng.integers(2, 4)), replace=False)]
+        for b, d in zip(big, [2, 3, 2]):
+            dims[b] = d
+        S = [int(x) for x in rng.permutation(n)[: int(rng.integers(1, n - 1))]]
+        check(ctx, dims, S, "list", "int64")
     # scalar / one-element / omitted dimension arguments
     for it in range(120 if quick else 600):
         d0, d1 = int(rng.integers(1, 7)), int(rng.integers(1, 7))
